@@ -218,11 +218,24 @@ def rule_naming(ctx):
             asg[st.targets[0].id] = norm(st.value).replace(" ", "").replace('"', "'")
     okt = asg.get("start") == "pd.Timestamp(output[primary_name+'/time'].values.min().item(0))" and asg.get("end") == "pd.Timestamp(output[primary_name+'/time'].values.max().item(0))"
     h = ctx.func(COL, "concat_collocations")
+    hflow = Flow(h)
+    import re as _re
     asg2 = {}
-    for st in walk_no_nested(h.node):
-        if isinstance(st, ast.Assign) and isinstance(st.targets[0], ast.Name) and st.targets[0].id in ("start", "end"):
-            asg2[st.targets[0].id] = norm(st.value).replace(" ", "").replace('"', "'")
-    okt2 = asg2.get("start") == "pd.Timestamp(groups[primary][primary+'/time'].min().item(0))" and asg2.get("end") == "pd.Timestamp(groups[primary][primary+'/time'].max().item(0))"
+    for st in hflow.stmts:
+        if isinstance(st, ast.Assign) and isinstance(st.targets[0], ast.Attribute) and st.targets[0].attr == "attrs" and isinstance(st.value, ast.Dict):
+            for k_, v_ in zip(st.value.keys, st.value.values):
+                if isinstance(k_, ast.Constant) and k_.value in ("start_time", "end_time"):
+                    vv = v_
+                    while isinstance(vv, ast.Call) and dotted(vv.func) == "str" and len(vv.args) == 1:
+                        vv = vv.args[0]
+                    if isinstance(vv, ast.Name):
+                        vv = hflow.resolve(vv, at=st, depth=1, stop=("primary",))
+                    asg2[{"start_time": "start", "end_time": "end"}[k_.value]] = str(norm(vv)).replace(" ", "").replace('"', "'")
+    if set(asg2) != {"start", "end"}:
+        raise AnalysisError("concat_collocations: start_time / end_time attributes of the merged dataset not found")
+    pat = r"pd\.Timestamp\((\w+)\[primary\]\[primary\+'/time'\]\.%s\(\)\.item\(0\)\)"
+    m1, m2 = _re.fullmatch(pat % "min", asg2["start"]), _re.fullmatch(pat % "max", asg2["end"])
+    okt2 = bool(m1) and bool(m2) and m1.group(1) == m2.group(1)
     ctx.ob("collocations.time_span", okt and okt2, "_create_return: %s; concat: %s" % (asg, asg2), "start_time / end_time = min / max of the primary times of the collocations held", node=g.node, func=g)
 
 
